@@ -38,6 +38,7 @@ NoEvent == [k |-> "init", t |-> 0, op |-> "", p |-> 0, tok |-> 0, it |-> 0, tag 
 Obs(ev) == [trig |-> Range(ev.trig), ready |-> ev.ready, cp |-> ev.cp, cg |-> ev.cg, occ |-> ev.occ]
 
 Ledger0 == [now |-> 0, toks |-> <<>>, ins |-> <<>>, got |-> {}, nput |-> 0,
+            last |-> "",           \* the last call that changed the contents: "put" / "get"
             acts |-> <<0>>,        \* fleet: activation instants of the reference schedule (timer starts at 0)
             capNow |-> FALSE]      \* fleet: the held count reached capacity in the current instant
 
@@ -90,12 +91,12 @@ Step(Lg, ev) ==
          LET ins2 == Append(L1.ins, [id |-> ev.it, tag |-> ev.tag, at |-> ev.t, d |-> ev.d,
                                      av |-> IF ev.it \in Range(ev.ready) THEN ev.t ELSE -1])
              full == Len(ins2) = c.cap
-         IN [L1 EXCEPT !.ins = ins2, !.nput = @ + 1,
+         IN [L1 EXCEPT !.ins = ins2, !.nput = @ + 1, !.last = "put",
                        !.toks = IF ev.tok \in 1..Len(@) THEN SetTok(@, ev.tok, "used") ELSE @,
                        !.capNow = @ \/ full,
                        !.acts = IF c.kind = "fleet" /\ full /\ @[Len(@)] < ev.t THEN Append(@, ev.t) ELSE @]
     [] ev.op = "get" /\ ev.res = "item" ->
-         [L1 EXCEPT !.ins = SelectSeq(@, LAMBDA x : x.id # ev.ri), !.got = @ \cup {ev.ri},
+         [L1 EXCEPT !.ins = SelectSeq(@, LAMBDA x : x.id # ev.ri), !.got = @ \cup {ev.ri}, !.last = "get",
                     !.toks = IF ev.tok \in 1..Len(@) THEN SetTok(@, ev.tok, "used") ELSE @]
     [] ev.op \in {"cp", "cg"} /\ ev.res = "ok" ->
          [L1 EXCEPT !.toks = IF ev.tok \in 1..Len(@) THEN SetTok(@, ev.tok, "canc") ELSE @]
@@ -135,6 +136,9 @@ T_C01_Cap == Len(L.ins) + Cardinality(GrantedSet("put")) <= Cap
 T_C01_PutHonoured == [][(IsCall(e', {"put"}) /\ WFCall(e')) =>
                           (e'.res = "ok" /\ Len(L'.ins) = Len(L.ins) + 1 /\ Len(L'.ins) <= Cap)]_vars
 T_C01_Occupancy == e.occ >= 0 => e.occ = Len(L.ins)
+\* an event of kind "x": an exception escaped from one of the store's / edge's own processes (item movement, delay,
+\* dispatch) although every call it accepted was well-formed.  After a put: the put did not "succeed" after all.
+T_C01_NoBreakdown == ~(e.k = "x" /\ L.last = "put")
 
 (* C02 *)
 T_C02_GetFresh == [][(IsCall(e', {"get"}) /\ e'.res = "item") =>
@@ -143,6 +147,8 @@ T_C02_Backed == Cardinality(GrantedSet("get")) <= AvailCount
 T_C02_GetHonoured == [][(IsCall(e', {"get"}) /\ WFCall(e')) => e'.res = "item"]_vars
 T_C02_NoInvent == [][(IsCall(e', {"put"}) /\ e'.res # "ok") => Len(L'.ins) = Len(L.ins)]_vars
 T_C02_ReadyInside == ReadySet \subseteq InsIds /\ Cardinality(ReadySet) = Len(e.ready)
+\* ... otherwise: the items inside are lost with the dead process
+T_C02_NoBreakdown == ~(e.k = "x" /\ L.last # "put")
 
 (* C04  at the end of an instant (nothing left that could still serve the request) *)
 T_C04_Put == e.q => ~(PendingSet("put") # {} /\ Len(L.ins) + Cardinality(GrantedSet("put")) < Cap)
